@@ -153,6 +153,15 @@ func (n *decoratorNode) Call(s containerStore) (err error) {
 	}
 
 	results := s.invoker()(reflect.ValueOf(n.dcor), args)
+	// ExtractList writes straight into the scope, so look for a returned
+	// error first: values returned alongside an error must not be stored.
+	for _, r := range results {
+		if isError(r.Type()) {
+			if e, _ := r.Interface().(error); e != nil {
+				return e
+			}
+		}
+	}
 	if err = n.results.ExtractList(n.s, true /* decorated */, results); err != nil {
 		return err
 	}
